@@ -252,7 +252,8 @@ class RealRun:
             # its last ": " (registered backend names = several candidates; type reprs = no candidate), not by its wording
             # (work package "robust": a reworded message must not derail the correspondence).
             tail = msg.rsplit(": ", 1)[1].split("\n")[0].split(", ") if ": " in msg else []
-            known = set(self.reg.state.name_to_backend.keys())
+            known = {sp["name"] for sp in self.world.specs} | set(self.reg.state.name_to_backend.keys())   # (the candidates may
+            #                     live in a state copy that is discarded on error, so the surviving state alone does not know them)
             if len(tail) >= 2 and all(t in known for t in tail):
                 # the candidates live in a state copy that is discarded on error: compare by name
                 return {"multiple": sorted(tail)}
